@@ -275,3 +275,115 @@ def b_chord_shorthand_strings(tier, rnd):
     return {"rule": "39 roots x every shorthand; alias spellings (min/mi/-/maj/ma) of every shorthand on 5 roots; "
                     "3 roots x every shorthand x 28 basses (valid/invalid); 48x48 polychords; NC; lists; 38 malformed",
             "cases": cases}
+
+
+# ---------------------------------------------------------------- scales
+def _scale_objects(cls, tier):
+    from mingus.core import scales
+    from contracts.core_scales import KEY_TONICS_MAJOR, KEY_TONICS_MINOR
+    K = getattr(scales, cls)
+    octs = (1, 2, 3) if tier == "quick" else (1, 2, 3, 5, 8)
+    out = []
+    if cls == "Chromatic":
+        for k in KEYS30:
+            for n in octs:
+                out.append(K(k, n))
+        return out
+    if cls == "Diatonic":
+        import itertools
+        for t in canon_names(2):
+            for r in range(0, 4):
+                for sem in itertools.combinations(range(1, 8), r):
+                    out.append(K(t, sem, 2))
+        return out
+    if cls in ("Major", "HarmonicMajor"):
+        tonics = KEY_TONICS_MAJOR
+    elif cls in ("NaturalMinor", "HarmonicMinor", "MelodicMinor", "Bachian", "MinorNeapolitan"):
+        tonics = KEY_TONICS_MINOR
+    else:
+        tonics = all_names(3 if tier == "quick" else 4)
+    for t in tonics:
+        for n in octs:
+            out.append(K(t, n))
+    return out
+
+
+def get(name):
+    if name in REG:
+        return REG[name]
+    if name.startswith("scale:"):
+        cls = name.split(":", 1)[1]
+
+        def f(tier, rnd):
+            return {"rule": "instances of %s on every tonic valid for it (any-tonic classes: all names with <= 3 "
+                            "accidentals) x octave counts" % cls,
+                    "cases": [(o,) for o in _scale_objects(cls, tier)]}
+        return f
+    raise KeyError(name)
+
+
+@battery("scale_ctor")
+def b_scale_ctor(tier, rnd):
+    from contracts.core_scales import KEY_TONICS_MAJOR, KEY_TONICS_MINOR, PATTERN
+    cases = []
+    for cls in PATTERN:
+        if cls in ("MelodicMinor", "MinorNeapolitan", "Chromatic"):
+            continue
+        if cls in ("Major", "HarmonicMajor"):
+            tonics = KEY_TONICS_MAJOR
+        elif cls in ("NaturalMinor", "HarmonicMinor", "Bachian"):
+            tonics = KEY_TONICS_MINOR
+        else:
+            tonics = canon_names(2)
+        for t in tonics:
+            for n in (1, 2, 3):
+                cases.append((cls, t, n))
+    return {"rule": "14 reversible classes x valid tonics (any-tonic classes: 35 canonical names) x octaves 1..3",
+            "cases": cases}
+
+
+@battery("scale_ctor_k")
+def b_scale_ctor_k(tier, rnd):
+    from contracts.core_scales import KEY_TONICS_MAJOR, KEY_TONICS_MINOR, PATTERN
+    cases = []
+    for cls in PATTERN:
+        if cls == "Chromatic":
+            continue
+        if cls in ("Major", "HarmonicMajor"):
+            tonics = KEY_TONICS_MAJOR
+        elif cls in ("NaturalMinor", "HarmonicMinor", "Bachian", "MelodicMinor", "MinorNeapolitan"):
+            tonics = KEY_TONICS_MINOR
+        else:
+            tonics = canon_names(1)
+        for t in tonics:
+            for n in (1, 2):
+                for k in range(1, len(PATTERN[cls]) * n + 1):
+                    cases.append((cls, t, n, k))
+    return {"rule": "16 classes x valid tonics x octaves 1..2 x every degree", "cases": cases}
+
+
+@battery("note_sets")
+def b_note_sets(tier, rnd):
+    import itertools
+    from contracts.specfuns import scale_sets, key_of_signature
+    single = canon_names(1)
+    cases = [([],)]
+    for r in (1, 2) if tier == "quick" else (1, 2, 3):
+        for c in itertools.combinations(single, r):
+            cases.append((list(c),))
+    # every scale's own ascending / descending set, and those sets minus one note, plus one foreign note
+    for n in range(-7, 8):
+        for name, (asc, desc) in sorted(scale_sets(key_of_signature(n, False), key_of_signature(n, True)).items()):
+            for st in (asc, desc):
+                l = sorted(st)
+                cases.append((l,))
+                for i in range(len(l)):
+                    cases.append((l[:i] + l[i + 1:],))
+                cases.append((l + [rnd.choice(single)],))
+    for _ in range(300 if tier == "quick" else 3000):
+        k = rnd.randint(3, 6)
+        cases.append((rnd.sample(canon_names(2), k),))
+    cases.append((["A", "Bb", "E", "F#", "G"],))
+    return {"rule": "all subsets of size <= 2 (thorough: 3) of the 21 names with <= 1 accidental; every scale's own "
+                    "ascending/descending note set, each minus one note and plus one foreign note (15 key pairs x 7 "
+                    "classes); seeded random sets of 3-6 names with <= 2 accidentals", "cases": cases}
